@@ -150,6 +150,9 @@ pub fn enumerate(cfg: &AttackCfg, r: &RefRun, seed: u64) -> Vec<C03Sub> {
                         "garbled-row:all-four",
                         vec![e],
                     ));
+                    // emptied row, and a row shorter than an authentication tag
+                    out.push(sub(cfg, r, &s, MutSpec::At { path: vec![g, i], op: LeafOp::VecClear }, "garbled-row:emptied", vec![e]));
+                    out.push(sub(cfg, r, &s, MutSpec::At { path: vec![g, i], op: LeafOp::VecResize(-(20 + rng.random_range(0..10) as i64)) }, "garbled-row:shorter-than-tag", vec![e]));
                     // truncated row (authentication tag cut)
                     out.push(sub(cfg, r, &s, MutSpec::At { path: vec![g, i], op: LeafOp::VecResize(-1) }, "garbled-row:truncated", vec![e]));
                 }
